@@ -40,7 +40,7 @@ var dims = []dim{
 	{"hooks", []string{"nil", "existing"}},
 	{"env", []string{"none", "new", "override", "repeated", "override+repeated+new"}},
 	{"devnodes", []string{"none", "char-unspecified", "char-specified", "block-unspecified", "fifo-unspecified", "fifo-specified", "block-type-only",
-		"char-full-attrs", "char-uid0", "replace-existing", "same-path-twice", "same-path-twice-different-type", "replace+new", "no-hostpath-specified", "char-perm-r", "major-only", "only-uid-set", "only-gid-set", "uid-set-gid-zero", "mode-with-type-and-special-bits"}},
+		"char-full-attrs", "char-uid0", "replace-existing", "same-path-twice", "same-path-twice-different-type", "replace+new", "no-hostpath-specified", "char-perm-r", "major-only", "only-uid-set", "only-gid-set", "uid-set-gid-zero", "mode-with-type-and-special-bits", "hostpath-names-a-node-of-the-container"}},
 	{"edit-mounts", []string{"none", "new", "replace-existing", "same-dest-twice", "deep-then-shallow", "non-clean-dest", "replace+siblings", "children-before-parents-spelled-with-trailing-slash"}},
 	{"edit-hooks", []string{"none", "prestart", "createRuntime", "createContainer", "startContainer", "poststart", "poststop", "two-in-one-stage", "one-per-stage"}},
 	{"gids", []string{"none", "zero-only", "dup-5-5", "new-9-11", "zero-9-zero-7", "process-gid-2000-1-uid-1000"}},
@@ -263,6 +263,11 @@ func buildEdits(c Case) *specs.ContainerEdits {
 		e.DeviceNodes = []*specs.DeviceNode{{Path: "/dev/ctr0", HostPath: bl}, {Path: "/dev/ctr0", HostPath: ff}}
 	case "replace+new":
 		e.DeviceNodes = []*specs.DeviceNode{{Path: "/dev/new", HostPath: bl, Permissions: "rw"}, {Path: "/dev/existing", HostPath: ff}, {Path: "/dev/new2", HostPath: ch}}
+	case "hostpath-names-a-node-of-the-container":
+		// host paths that are, as container paths, nodes the OCI spec already has or an earlier edit added:
+		// a host path says where the node comes from, it replaces nothing
+		e.DeviceNodes = []*specs.DeviceNode{{Path: "/dev/ctr0", HostPath: "/dev/keep", Type: "c", Major: 10, Minor: 20}, {Path: "/dev/ctr1", HostPath: "/nonexistent/host", Type: "b", Major: 11, Minor: 21},
+			{Path: "/dev/ctr2", HostPath: "/dev/ctr1", Type: "c", Major: 12, Minor: 22}, {Path: "/dev/ctr3", HostPath: "/dev/existing", Type: "p"}}
 	case "no-hostpath-specified":
 		e.DeviceNodes = []*specs.DeviceNode{{Path: ch}} // container path = host path
 	case "char-perm-r":
